@@ -23,6 +23,7 @@ func init() {
 			"fmt recovers panics inside String/Error methods and prints '%!v(PANIC=String method: ...)'; the monitor therefore scans every fmt output for '(PANIC=' in addition to guarding direct String() calls",
 			"datagrams are capped at 4 KiB for most cases because several String methods build their result quadratically; slowness is not a violation",
 		},
+		FuzzTarget: "FuzzString", FuzzExecs: 3000000,
 		MinDistinctQuick: 100000, MinDistinctThorough: 5000000,
 	})
 }
@@ -83,7 +84,9 @@ func runC17(c *core.Ctx) {
 		}
 		cp := rtcp.CompoundPacket(ps)
 		c17Format(cs, &cp, "CompoundPacket(decoded list)")
-		cs.Sample("decoded", func() any { return map[string]any{"input_hex": mon.Hex(in, 64), "string_of_first": fmt.Sprintf("%.200v", ps[0])} })
+		cs.Sample("decoded", func() any {
+			return map[string]any{"input_hex": mon.Hex(in, 64), "string_of_first": fmt.Sprintf("%.200v", ps[0])}
+		})
 	})
 	// (2) well-formed values, incl. compound packets mixing all types
 	c.Section("values", c.N(150000, 5000000), func(cs *core.Case) {
